@@ -453,7 +453,7 @@ pub fn convert<W: std::io::Write + Send + 'static>(
     }
 
     // now we do need to sort and dedup each stream only:
-    let input_file_streams: Vec<StreamEntry> = input_file_streams
+    let mut input_file_streams: Vec<StreamEntry> = input_file_streams
         .into_iter()
         .map(|(hashset, mut time_files)| {
             time_files.sort_by(|a, b| a.0.cmp(&b.0));
@@ -461,6 +461,10 @@ pub fn convert<W: std::io::Write + Send + 'static>(
             (hashset, time_files)
         })
         .collect();
+    // process the streams in the order of the reception time of their first msg (and not in the order the
+    // files have been provided) as the order of msgs with the same reception time from different streams
+    // depends on the order of the streams:
+    input_file_streams.sort_by(|a, b| a.1[0].0.cmp(&b.1[0].0));
     if log.is_debug_enabled() {
         for (ecus, files) in &input_file_streams {
             info!(log, "ecus {:?} have {} files:", ecus, files.len());
